@@ -92,7 +92,7 @@ impl Monitor for AppCallMonitor {
         }
     }
 
-    fn on_station(&mut self, _w: &World, st: usize, ev: &StationEv) {
+    fn on_station(&mut self, w: &World, st: usize, ev: &StationEv) {
         if matches!(ev, StationEv::Online | StationEv::Offline | StationEv::Crash | StationEv::Restart) {
             let s = &mut self.st[st];
             s.outstanding = None;
@@ -100,6 +100,8 @@ impl Monitor for AppCallMonitor {
             s.declined = 0;
             s.n_declined = 0;
             s.has_token = false;
+            // (the application list may have been exchanged while the station was offline)
+            s.n_apps = w.stations[st].apps.len();
         }
     }
 
